@@ -9,17 +9,15 @@ Open Scope Z_scope.
 (* raw facts about the error value Transact/TransactCtx returned *)
 Record eobs := mkE
   { e_nil : bool;        (* err == nil *)
-    e_unavail : bool;    (* errors.Is(err, breaker.ErrServiceUnavailable) *)
-    e_begin : bool;      (* errors.Is(err, <the driver's Begin error>) *)
-    e_commit : bool;     (* errors.Is(err, <the driver's Commit error>) *)
-    e_rollback : bool;   (* errors.Is(err, <the driver's Rollback error>) *)
+    e_begin : bool;      (* errors.Is(err, <the marker of the driver's Begin error>) *)
+    e_commit : bool;     (* errors.Is(err, <the marker of the driver's Commit error>) *)
+    e_rollback : bool;   (* errors.Is(err, <the marker of the driver's Rollback error>) *)
     e_same : bool;       (* err == the very error value the body returned *)
     e_recover : bool;    (* text starts with "recover from " *)
     e_txfailed : bool;   (* text starts with "transaction failed: <body error>, rollback failed: " *)
-    e_canceled : bool;   (* errors.Is(err, context.Canceled) *)
-    e_txdone : bool;     (* errors.Is(err, sql.ErrTxDone) *)
     e_noconn : bool;     (* errors.Is(err, <the connection provider's error>) *)
-    e_nest : bool }.     (* text contains "cannot nest transactions" *)
+    e_nest : bool;       (* text is "cannot nest transactions" *)
+    e_sent : list ekind }. (* the sentinel values err matches through errors.Is, in the order of [ekind] *)
 
 (* how the call ended, as seen by the caller *)
 Inductive robs :=
@@ -48,7 +46,22 @@ Record case := mkCase
     oths : list tobs;
     ofinal : Z }.                (* connections checked out of the pools when the run was over *)
 
+(* short forms used by the rendered cases *)
+Definition en (t : nat) (cn : Z) (c : call) (o : outcome) : logent := mkEnt t cn c o vgen.
+Definition rp (o : outcome) (c : bool) : reply := mkReply o c vgen.
+
 (* ---- equality tests --------------------------------------------------------- *)
+Definition ekind_eqb (a b : ekind) : bool :=
+  match a, b with
+  | VGeneric, VGeneric | VBadConn, VBadConn | VTxDone, VTxDone | VConnDone, VConnDone
+  | VNoRows, VNoRows | VCanceled, VCanceled | VDeadline, VDeadline | VSkip, VSkip
+  | VUnavail, VUnavail | VEOF, VEOF => true
+  | _, _ => false
+  end.
+Definition emode_eqb (a b : emode) : bool :=
+  match a, b with MBare, MBare | MWrap, MWrap | MCustom, MCustom => true | _, _ => false end.
+Definition errval_eqb (a b : errval) : bool :=
+  ekind_eqb (vkind a) (vkind b) && emode_eqb (vmode a) (vmode b).
 Definition outcome_eqb (a b : outcome) : bool :=
   match a, b with OOk, OOk | OFail, OFail | OPanic, OPanic => true | _, _ => false end.
 Definition skind_eqb (a b : skind) : bool :=
@@ -58,18 +71,18 @@ Definition skind_eqb (a b : skind) : bool :=
   end.
 Definition call_eqb (a b : call) : bool :=
   match a, b with
-  | CBegin, CBegin | CCommit, CCommit | CRollback, CRollback => true
+  | CBegin, CBegin | CBeginRetry, CBeginRetry | CCommit, CCommit | CRollback, CRollback => true
   | CStmt j x, CStmt k y => (j =? k) && skind_eqb x y
   | _, _ => false
   end.
 Definition logent_eqb (a b : logent) : bool :=
   Nat.eqb (etid a) (etid b) && (econn a =? econn b) && call_eqb (ecall a) (ecall b) &&
-  outcome_eqb (eout a) (eout b).
+  outcome_eqb (eout a) (eout b) && errval_eqb (eval a) (eval b).
 Definition berr_eqb (a b : berr) : bool :=
   match a, b with
-  | BUser, BUser => true
-  | BStmt j, BStmt k | BCtx j, BCtx k | BTxDone j, BTxDone k | BNest j, BNest k
-  | BSelfC j, BSelfC k | BSelfR j, BSelfR k => j =? k
+  | BUser v, BUser w => errval_eqb v w
+  | BCtx j, BCtx k | BTxDone j, BTxDone k | BNest j, BNest k => j =? k
+  | BStmt j v, BStmt k w | BSelfC j v, BSelfC k w | BSelfR j v, BSelfR k w => (j =? k) && errval_eqb v w
   | _, _ => false
   end.
 Definition bout_eqb (a b : bout) : bool :=
@@ -79,12 +92,12 @@ Definition bout_eqb (a b : bout) : bool :=
   | _, _ => false
   end.
 Definition eobs_eqb (a b : eobs) : bool :=
-  Bool.eqb (e_nil a) (e_nil b) && Bool.eqb (e_unavail a) (e_unavail b) &&
+  Bool.eqb (e_nil a) (e_nil b) &&
   Bool.eqb (e_begin a) (e_begin b) && Bool.eqb (e_commit a) (e_commit b) &&
   Bool.eqb (e_rollback a) (e_rollback b) && Bool.eqb (e_same a) (e_same b) &&
   Bool.eqb (e_recover a) (e_recover b) && Bool.eqb (e_txfailed a) (e_txfailed b) &&
-  Bool.eqb (e_canceled a) (e_canceled b) && Bool.eqb (e_txdone a) (e_txdone b) &&
-  Bool.eqb (e_noconn a) (e_noconn b) && Bool.eqb (e_nest a) (e_nest b).
+  Bool.eqb (e_noconn a) (e_noconn b) && Bool.eqb (e_nest a) (e_nest b) &&
+  list_eqb ekind_eqb (e_sent a) (e_sent b).
 Definition robs_eqb (a b : robs) : bool :=
   match a, b with
   | ORet x, ORet y => eobs_eqb x y
@@ -97,50 +110,69 @@ Definition tobs_eqb (a b : tobs) : bool :=
   (o_acc a =? o_acc b) && Bool.eqb (o_accsame a) (o_accsame b).
 
 (* ---- what the harness would read off the model ------------------------------- *)
-Definition noE : eobs := mkE false false false false false false false false false false false false.
+Definition noE : eobs := mkE false false false false false false false false false [].
+
+(* an injected error carries a marker of its origin (Begin / Commit / Rollback / statement / the
+   body) unless it is a bare sentinel value *)
+Definition role_visible (v : errval) : bool :=
+  match vkind v, vmode v with
+  | VGeneric, _ => true
+  | _, MBare => false
+  | _, _ => true
+  end.
+Definition sent_of (v : errval) : list ekind :=
+  match vkind v with VGeneric => [] | k => [k] end.
 
 Definition cause_facts (c : ecause) (e : eobs) : eobs :=
   match c with
-  | DrvCommit => mkE (e_nil e) (e_unavail e) (e_begin e) true (e_rollback e) (e_same e) (e_recover e)
-                     (e_txfailed e) (e_canceled e) (e_txdone e) (e_noconn e) (e_nest e)
-  | DrvRollback => mkE (e_nil e) (e_unavail e) (e_begin e) (e_commit e) true (e_same e) (e_recover e)
-                       (e_txfailed e) (e_canceled e) (e_txdone e) (e_noconn e) (e_nest e)
-  | TxDone => mkE (e_nil e) (e_unavail e) (e_begin e) (e_commit e) (e_rollback e) (e_same e) (e_recover e)
-                  (e_txfailed e) (e_canceled e) true (e_noconn e) (e_nest e)
+  | DrvCommit v => mkE (e_nil e) (e_begin e) (role_visible v) (e_rollback e) (e_same e) (e_recover e)
+                       (e_txfailed e) (e_noconn e) (e_nest e) (sent_of v)
+  | DrvRollback v => mkE (e_nil e) (e_begin e) (e_commit e) (role_visible v) (e_same e) (e_recover e)
+                         (e_txfailed e) (e_noconn e) (e_nest e) (sent_of v)
+  | TxDone => mkE (e_nil e) (e_begin e) (e_commit e) (e_rollback e) (e_same e) (e_recover e)
+                  (e_txfailed e) (e_noconn e) (e_nest e) [VTxDone]
   end.
 
 Definition berr_facts (b : berr) : eobs :=
-  (*                         nil   unav  begin commit rollb same rec   txf   canc  done  noc   nest *)
+  (*                 nil   begin commit rollb same rec   txf   noc   nest  sentinels *)
   match b with
-  | BUser | BStmt _ => mkE false false false false false true false false false false false false
-  | BCtx _          => mkE false false false false false true false false true  false false false
-  | BTxDone _       => mkE false false false false false true false false false true  false false
-  | BNest _         => mkE false false false false false true false false false false false true
-  | BSelfC _        => mkE false false false true  false true false false false false false false
-  | BSelfR _        => mkE false false false false true  true false false false false false false
+  | BUser v     => mkE false false false false true false false false false (sent_of v)
+  | BStmt _ v   => mkE false false false false true false false false false (sent_of v)
+  | BCtx _      => mkE false false false false true false false false false [VCanceled]
+  | BTxDone _   => mkE false false false false true false false false false [VTxDone]
+  | BNest _     => mkE false false false false true false false false true  []
+  | BSelfC _ v  => mkE false false (role_visible v) false true false false false false (sent_of v)
+  | BSelfR _ v  => mkE false false false (role_visible v) true false false false false (sent_of v)
   end.
 
 Definition facts (e : err) : eobs :=
   match e with
-  | ENil            => mkE true  false false false false false false false false false false false
-  | EUnavailable    => mkE false true  false false false false false false false false false false
-  | ECanceled       => mkE false false false false false false false false true  false false false
-  | ENoConn         => mkE false false false false false false false false false false true  false
-  | EBegin          => mkE false false true  false false false false false false false false false
+  | ENil            => mkE true  false false false false false false false false []
+  | EUnavailable    => mkE false false false false false false false false false [VUnavail]
+  | ECanceled       => mkE false false false false false false false false false [VCanceled]
+  | ENoConn         => mkE false false false false false false false true  false []
+  | EBegin v        => mkE false (role_visible v) false false false false false false false (sent_of v)
   | EBody b         => berr_facts b
   | ECommit c       => cause_facts c noE
-  | ERecover None   => mkE false false false false false false true  false false false false false
-  | ERecover (Some c) => cause_facts c (mkE false false false false false false true false false false false false)
-  | ETxFailed _ c   => cause_facts c (mkE false false false false false false false true false false false false)
+  | ERecover None   => mkE false false false false false true  false false false []
+  | ERecover (Some c) => cause_facts c (mkE false false false false false true false false false [])
+  | ETxFailed _ c   => cause_facts c (mkE false false false false false false true false false [])
   end.
 
 (* commonSqlConn.acceptable consults the user's functions for a non-nil error that is not
-   one of sql.ErrNoRows / sql.ErrTxDone / context.Canceled; the breaker asks it only for calls
-   it let through and that returned *)
+   one of sql.ErrNoRows / sql.ErrTxDone / context.Canceled (regenerated); the breaker asks it only
+   for calls it let through and that returned *)
+Definition builtin_acceptable (k : ekind) : bool :=
+  match k with
+  | VNoRows => gen_acc_norows
+  | VTxDone => gen_acc_txdone
+  | VCanceled => gen_acc_canceled
+  | _ => false
+  end.
 Definition consults (e : err) : bool :=
   match e with
   | ENil | EUnavailable | ECanceled => false
-  | _ => negb ((gen_acc_canceled && e_canceled (facts e)) || (gen_acc_txdone && e_txdone (facts e)))
+  | _ => negb (existsb builtin_acceptable (e_sent (facts e)))
   end.
 
 Definition robs_of (r : ret) : robs :=
@@ -171,6 +203,12 @@ Definition ret_nil (r : robs) : bool := match r with ORet e => e_nil e | _ => fa
 Definition ret_err (r : robs) : bool := match r with ORet e => negb (e_nil e) | _ => false end.
 Definition is_goexit (o : bout) : bool := match o with BGoexit => true | _ => false end.
 
+(* the returned error lets the caller see that the Commit / Rollback failed with [v]: through the
+   marker of the injected error, or — a bare sentinel value has none — through that value *)
+Definition shows (x : eobs) (commit : bool) (v : errval) : bool :=
+  if role_visible v then (if commit then e_commit x else e_rollback x)
+  else existsb (ekind_eqb (vkind v)) (e_sent x).
+
 (* the end call made by Transact's deferred function, for a body that ended with [bo] *)
 Definition end_ok (bo : bout) (e : logent) (r : robs) : bool :=
   (* commit iff the body returned nil; error, panic, goroutine exit: rollback *)
@@ -181,7 +219,7 @@ Definition end_ok (bo : bout) (e : logent) (r : robs) : bool :=
   | OOk => true
   | OFail =>
     match r with
-    | ORet x => negb (e_nil x) && (if is_commit (ecall e) then e_commit x else e_rollback x)
+    | ORet x => negb (e_nil x) && shows x (is_commit (ecall e)) (eval e)
     | ONever => is_goexit bo
     | _ => false
     end
